@@ -10,6 +10,8 @@ let () =
     let held : (int, n option * bool ref) Hashtbl.t = Hashtbl.create 8 in   (* n -> (model id option, moved-to-tsx flag) *)
     let nheld = ref 0 in
     let client_kind : (string, string) Hashtbl.t = Hashtbl.create 8 in
+    let client_done : (int, bool) Hashtbl.t = Hashtbl.create 8 in
+    let client_acc : (string, bool) Hashtbl.t = Hashtbl.create 8 in
     let outs = ref [] in
     let count () = List.length (fst !st) in
     let apply ev = let (st', r) = step !st ev in st := st'; r in
@@ -33,7 +35,8 @@ let () =
              let idx = string_of_int (int_of_n id) in
              let status = int_of_string p.(2) in
              let kind = (try Hashtbl.find client_kind idx with Not_found -> "") in
-             if (kind = "INVITE" && status >= 300) || (kind <> "INVITE" && status >= 200) then ignore (apply (ClientFinal id));
+             if kind = "INVITE" && status >= 200 && status < 300 then Hashtbl.replace client_acc idx true;
+             if (kind = "INVITE" && status >= 300 && not (Hashtbl.mem client_acc idx)) || (kind <> "INVITE" && status >= 200) then (Hashtbl.replace client_done (int_of_n id) true; ignore (apply (ClientFinal id)));
              "c" ^ idx
            | Some (ToTsx (_, false)) -> "-"
            | Some (NewRequest id) -> let n = !nheld in incr nheld; Hashtbl.replace held n (Some id, ref false); Printf.sprintf "L%d" n
@@ -61,7 +64,7 @@ let () =
            | 'a' -> (match Hashtbl.find_opt held num with
                      | Some (Some id, moved) when !moved -> ignore (apply (End id))
                      | _ -> ())
-           | 'c' -> ignore (apply (End (n_of_int num)))
+           | 'c' -> if not (Hashtbl.mem client_done num) then ignore (apply (End (n_of_int num)))
            | _ -> ());
           "-"
         | _ -> "?") in
